@@ -60,7 +60,24 @@ BestVerdict(r) ==
     ELSE IF r.out = BestExpected(r, 96) /\ BestLawsHold(r, 96) THEN "KF1"
     ELSE "bad"
 
+\* the matrix patterns x names: the verdicts must not depend on the order in which the calls are
+\* made (pattern-major pm / name-major nm; dp / dn the same through the standalone Dewey matcher)
+MatExpected(r, lb) == [i \in 1..Len(r.in.ps) |-> [j \in 1..Len(r.in.ns) |->
+                          TF(CompileOk(r.in.ps[i]) /\ MatchL(r.in.ps[i], r.in.ns[j], lb))]]
+DewMatExpected(r, lb) == [i \in 1..Len(r.in.ps) |-> [j \in 1..Len(r.in.ns) |->
+                          LET p == r.in.ps[i]  d == DeweyNew(p) IN
+                          TF(~HasAnyOf(p, {LBRACE, RBRACE}) /\ d.ok /\ DeweyMatchesL(d, r.in.ns[j], lb))]]
+MatOK(r, lb) == /\ r.out.pm = MatExpected(r, lb) /\ r.out.nm = MatExpected(r, lb)
+                /\ r.out.dp = DewMatExpected(r, lb) /\ r.out.dn = DewMatExpected(r, lb)
+                /\ r.out.ok = [i \in 1..Len(r.in.ps) |-> TF(CompileOk(r.in.ps[i]))]
+MatVerdict(r) ==
+    IF ~Shape(r.out, {"ok", "pm", "nm", "dp", "dn"}) THEN "bad"
+    ELSE IF (\E i \in 1..Len(r.in.ps) : ~Judged(r.in.ps[i]) \/ LongRun(r.in.ps[i]))
+            \/ (\E j \in 1..Len(r.in.ns) : LongRun(r.in.ns[j])) THEN "ok"
+    ELSE IF MatOK(r, 0) THEN "ok" ELSE IF MatOK(r, 96) THEN "KF1" ELSE "bad"
+
 Verdict(r) == CASE r.op = "patmatch" -> PatVerdict(r)
+                [] r.op = "patmatrix" -> MatVerdict(r)
                 [] r.op = "best" -> BestVerdict(r)
                 [] OTHER -> "bad"
 
